@@ -1053,6 +1053,163 @@ def gen_msg(tier, rng):
             yield Case("%s %s" % (op, hex_tok(b"".join(sq))), cls="msg-loop-mutation")
 
 
+# ---------------------------------------------------------------- the RTSP command layer of the server (ServerCommandSession.runCmdLoop and its handlers)
+CMD_BASE = b"rtsp://127.0.0.1:5544/live/x"
+CMD_SDP = (b"v=0\r\no=- 0 0 IN IP4 127.0.0.1\r\ns=x\r\nc=IN IP4 127.0.0.1\r\nt=0 0\r\n"
+           b"m=video 0 RTP/AVP 96\r\na=rtpmap:96 H264/90000\r\na=control:streamid=0\r\n"
+           b"m=audio 0 RTP/AVP 97\r\na=rtpmap:97 MPEG4-GENERIC/44100/2\r\na=fmtp:97 profile-level-id=1;mode=AAC-hbr;sizelength=13;indexlength=3;indexdeltalength=3; config=1210\r\na=control:streamid=1\r\n")
+CMD_SDP_AUDIO = b"v=0\r\nm=audio 0 RTP/AVP 8\r\na=rtpmap:8 PCMA/8000/1\r\na=control:trackID=7\r\n"
+CMD_SDP_BAD = b"v=0\r\nm=video 0 RTP/AVP 96\r\na=rtpmap:96\r\na=control:streamid=0\r\n"
+T_TCP_A, T_TCP_V = b"RTP/AVP/TCP;unicast;interleaved=0-1", b"RTP/AVP/TCP;unicast;interleaved=2-3"
+T_UDP = b"RTP/AVP/UDP;unicast;client_port=40000-40001"
+TRANSPORTS = [T_TCP_A, T_TCP_V, T_UDP, b"RTP/AVP/UDP;unicast;client_port=0-65535;mode=record", b"", b"interleaved", b"interleaved=", b"interleaved=a-b", b"interleaved=1", b"interleaved=1-2-3",
+              b"interleaved=70000-65537", b"interleaved=-1--2", b"interleaved=-1-2", b"interleaved=+1-+2", b"interleaved=0x1-2", b"interleaved=9223372036854775807-9223372036854775808",
+              b"interleaved=18446744073709551615-1", b"interleaved=65535-65536", b"interleavedx=4-5", b"interleaved=0-1;interleaved=2-3", b"interleaved=0-1=2", b"interleaved=0-1=2;interleaved=6-7",
+              b"xinterleaved=0-1", b"RTP/AVP/TCP; interleaved=0-1", b"RTP/AVP;unicast;client_port=5-6;interleaved=8-9", b"client_port=", b"client_port=1", b"client_port=99999-1", b"client_port=a-b",
+              b"client_port=5-6;client_port=7-8", b"client_port=5-6;client_portal=x", b"RTP/AVP;client_port=-", b"unicast", b"interleaved=0-1;", b";;interleaved=3-4;;", b"Interleaved=0-1",
+              b"client_port=40002-40003;server_port=1-2", b"interleaved= 0-1", b"interleaved=0 -1", b"interleaved=00-01"]
+# request URIs: inside the class the model's ParseRtspUrl recogniser is exact on, or known to be refused by net/url / ParseRtspUrl
+CMD_URIS_OK = [CMD_BASE, b"rtsp://h/x", b"rtsp://h", b"rtsp://h/", b"rtsps://h:322/a/b/c?token=1&x=y", b"RTSP://h/x", b"rtsp://h:0/x", b"rtsp://a.b-c.d:00554/live/x.y_z~", b"rtsp://h/x?", b"rtsp://h?x=1"]
+CMD_URIS_BAD = [b"*", b"", b"/live/x", b"http://h/x", b"rtmp://h/live/x", b"rtsp://", b"rtsp:///x", b"rtsp://:554/x", b"rtsp://h:/x", b"rtsp://h:99999999999999999999/x", b"rtsp:/h/x", b"rtsp:h", b"%zz", b"rtsp://h/%zz",
+                b"rtspx://h/x", b"1rtsp://h/x"]
+
+
+def rq(method, uri, cseq, headers=(), body=b""):
+    out = method + b" " + uri + b" RTSP/1.0\r\n"
+    if cseq is not None:
+        out += b"CSeq: " + (b"%d" % cseq if isinstance(cseq, int) else cseq) + b"\r\n"
+    for k, v in headers:
+        out += k + b": " + v + b"\r\n"
+    if body:
+        out += b"Content-Length: %d\r\n" % len(body)
+    return out + b"\r\n" + body
+
+
+def cmd_req(sym, n, base=CMD_BASE, sdp=CMD_SDP):
+    """one request of the command alphabet; n = CSeq"""
+    if sym == "O":
+        return rq(b"OPTIONS", base, n)
+    if sym == "A":
+        return rq(b"ANNOUNCE", base, n, [(b"Content-Type", b"application/sdp")], sdp)
+    if sym == "D":
+        return rq(b"DESCRIBE", base, n, [(b"Accept", b"application/sdp")])
+    if sym == "Sa":
+        return rq(b"SETUP", base + b"/streamid=1", n, [(b"Transport", T_TCP_A)])
+    if sym == "Sv":
+        return rq(b"SETUP", base + b"/streamid=0", n, [(b"Transport", T_TCP_V)])
+    if sym == "Su":
+        return rq(b"SETUP", base + b"/streamid=0", n, [(b"Transport", T_UDP)])
+    if sym == "R":
+        return rq(b"RECORD", base, n, [(b"Range", b"npt=0.000-")])
+    if sym == "P":
+        return rq(b"PLAY", base, n, [(b"Range", b"npt=0.000-")])
+    if sym == "T":
+        return rq(b"TEARDOWN", base, n)
+    if sym == "G":
+        return rq(b"GET_PARAMETER", base, n)
+    if sym == "I":
+        return interleaved(0, rtp(96, n, 0, 7, b"\x41\x01"))
+    raise ValueError(sym)
+
+
+def cmd_line(stream, ws=0, pubok=1, desc="nosdp", playok=1, mask=None):
+    if ws:
+        stream = b"".join(ws_frame(x, mask=mask) for x in stream) if isinstance(stream, list) else ws_frame(stream, mask=mask)
+    elif isinstance(stream, list):
+        stream = b"".join(stream)
+    return "c13.rtspcmd %d %d %s %d %s" % (ws, pubok, desc, playok, hex_tok(stream))
+
+
+def gen_cmd(tier, rng):
+    quick = tier == "quick"
+    full, audio, bad = hex_tok(CMD_SDP), hex_tok(CMD_SDP_AUDIO), hex_tok(CMD_SDP_BAD)
+    descs = ["nosdp", full, "deny", audio, bad, "-"]
+    # --- every order of the commands, up to 4 of them, against an observer with and without SDP
+    alpha = ["O", "A", "D", "Sa", "Sv", "R", "P", "T", "G"]
+    import itertools
+    k = 0
+    for n in (1, 2, 3, 4):
+        for seq in itertools.product(alpha, repeat=n):
+            k += 1
+            stream = [cmd_req(sym, i + 1) for i, sym in enumerate(seq)]
+            if n < 4 or not quick:
+                for d in ("nosdp", full):
+                    yield Case(cmd_line(stream, desc=d), cls="cmd-orders")
+            else:
+                yield Case(cmd_line(stream, desc=("nosdp", full)[k % 2]), cls="cmd-orders")
+    # the same with the observer refusing, other SDPs, WebSocket framing, UDP SETUP, interleaved packets in between
+    for n in (1, 2, 3):
+        for seq in itertools.product(["A", "D", "Su", "Sa", "P", "I", "T"], repeat=n):
+            stream = [cmd_req(sym, i + 1) for i, sym in enumerate(seq)]
+            yield Case(cmd_line(stream, desc=rng.choice(descs), pubok=rng.choice([1, 1, 0]), playok=rng.choice([1, 1, 0])), cls="cmd-orders-obs")
+            if "I" not in seq:
+                yield Case(cmd_line(stream, ws=1, desc=rng.choice(descs), mask=rb(rng, 4)), cls="cmd-orders-ws")
+    # --- every Transport form x pub / sub / sub without sdp / no session
+    for t in TRANSPORTS:
+        st = rq(b"SETUP", CMD_BASE + b"/streamid=0", 2, [(b"Transport", t)])
+        yield Case(cmd_line([cmd_req("A", 1), st, cmd_req("R", 3)]), cls="cmd-transport")
+        yield Case(cmd_line([cmd_req("D", 1), st, cmd_req("P", 3)], desc=full), cls="cmd-transport")
+        yield Case(cmd_line([cmd_req("D", 1), st, cmd_req("P", 3)], desc="nosdp"), cls="cmd-transport")
+        yield Case(cmd_line([st, cmd_req("O", 3)]), cls="cmd-transport")
+        yield Case(cmd_line([cmd_req("D", 1), rq(b"SETUP", CMD_BASE + b"/streamid=1", 2, [(b"transport", t), (b"Transport", T_TCP_A)])], ws=1, desc=full), cls="cmd-transport")
+    yield Case(cmd_line([cmd_req("A", 1), rq(b"SETUP", CMD_BASE + b"/streamid=0", 2)]), cls="cmd-transport")
+    # --- SETUP uri against the a=control values (suffix match, audio first), SDP variants
+    sdps = [CMD_SDP, CMD_SDP_AUDIO, CMD_SDP_BAD, b"", b"v=0\r\n", CMD_SDP.replace(b"streamid=1", b"streamid=0"), CMD_SDP.replace(b"a=control:streamid=0\r\n", b""),
+            CMD_SDP.replace(b"a=control:streamid=0", b"a=control:"), CMD_SDP.replace(b"a=control:streamid=0", b"a=control"), CMD_SDP.replace(b"a=control:streamid=0", b"a=controlx:y"),
+            CMD_SDP.replace(b"streamid=0", b"rtsp://h/x/track1"), b"a=control:*\r\n" + CMD_SDP, CMD_SDP + b"m=audio 0 RTP/AVP 0\r\na=control:last\r\n", CMD_SDP.replace(b"\r\n", b"\n"),
+            CMD_SDP.replace(b"m=video", b"m=Video"), CMD_SDP.replace(b"m=audio 0 RTP/AVP 97", b"m=audio"), CMD_SDP.replace(b"config=1210", b"config=1210\r\n;x=y"), CMD_SDP.replace(b"H264/90000", b"H264"),
+            CMD_SDP.replace(b"a=fmtp:97 ", b"a=fmtp:97"), CMD_SDP.replace(b"m=audio", b"\r\nm=audio"), CMD_SDP[:-2], CMD_SDP + b"\r\n", b"m=\r\na=control:\r\n", b"m=audio\r\na=control:x\r\nm=video\r\na=control:x\r\n"]
+    uris = [CMD_BASE + b"/streamid=0", CMD_BASE + b"/streamid=1", CMD_BASE, b"streamid=0", b"xstreamid=1", b"rtsp://h/x/track1", CMD_BASE + b"/trackID=7", b"", b"*", b"last", b"x", CMD_BASE + b"/streamid=0/"]
+    for sd in sdps:
+        for u in uris:
+            st = rq(b"SETUP", u, 2, [(b"Transport", T_TCP_A)])
+            yield Case(cmd_line([rq(b"ANNOUNCE", CMD_BASE, 1, [], sd), st, cmd_req("R", 3)]), cls="cmd-sdp-uri")
+            yield Case(cmd_line([cmd_req("D", 1), st, cmd_req("P", 3)], desc=hex_tok(sd)), cls="cmd-sdp-uri")
+        for cut in range(0, len(sd), 7):
+            yield Case(cmd_line([rq(b"ANNOUNCE", CMD_BASE, 1, [], sd[:cut]), cmd_req("Sv", 2)]), cls="cmd-sdp-trunc")
+    # --- request URIs of ANNOUNCE / DESCRIBE
+    for u in CMD_URIS_OK + CMD_URIS_BAD:
+        yield Case(cmd_line([rq(b"ANNOUNCE", u, 1, [], CMD_SDP), rq(b"SETUP", u + b"/streamid=0", 2, [(b"Transport", T_TCP_V)]), cmd_req("R", 3)]), cls="cmd-uri")
+        yield Case(cmd_line([rq(b"DESCRIBE", u, 1), rq(b"SETUP", u + b"/streamid=1", 2, [(b"Transport", T_TCP_A)]), rq(b"PLAY", u, 3)], desc=full), cls="cmd-uri")
+    # --- CSeq and method spellings, bodies
+    for cs in (None, b"", b"0", b"-1", b"abc", b"1 2", b" 7 ", b"1\r", b"99999999999999999999", b"%s%d", b"1\r\nCSeq: 2", b"1\r\n2", b"\xff\xfe", b"a: b"):
+        yield Case(cmd_line([rq(b"OPTIONS", CMD_BASE, cs), rq(b"DESCRIBE", CMD_BASE, cs), rq(b"SETUP", CMD_BASE + b"/streamid=0", cs, [(b"Transport", T_TCP_V)]), rq(b"PLAY", CMD_BASE, cs),
+                             rq(b"TEARDOWN", CMD_BASE, cs)], desc=full), cls="cmd-cseq")
+        yield Case(cmd_line([rq(b"ANNOUNCE", CMD_BASE, cs, [(b"cseq", b"9")], CMD_SDP), rq(b"RECORD", CMD_BASE, cs)]), cls="cmd-cseq")
+    for m in (b"options", b"Options", b"OPTIONS ", b"PAUSE", b"SET_PARAMETER", b"REDIRECT", b"GET", b"", b"$", b"ANNOUNCE2", b"DESCRIBEX", b"SETUP\t", b"PLAY:"):
+        yield Case(cmd_line([rq(m, CMD_BASE, 1), cmd_req("O", 2)]), cls="cmd-method")
+    yield Case(cmd_line([b"OPTIONS\r\n\r\n", cmd_req("O", 2)]), cls="cmd-method")
+    yield Case(cmd_line([b"OPTIONS " + CMD_BASE + b"\r\n\r\n", b"DESCRIBE " + CMD_BASE + b"\r\nCSeq: 2\r\n\r\n", b"TEARDOWN x\r\n\r\n"], desc=full), cls="cmd-method")
+    for v in (b"-1", b"99999999999", b"5", b"%d" % (len(CMD_SDP) - 1), b"%d" % (len(CMD_SDP) + 1), b"abc"):
+        yield Case(cmd_line([b"ANNOUNCE " + CMD_BASE + b" RTSP/1.0\r\nCSeq: 1\r\nContent-Length: " + v + b"\r\n\r\n" + CMD_SDP, cmd_req("O", 2)]), cls="cmd-body")
+    # --- interleaved packets with and without a session; truncation of a whole exchange at every offset
+    for pre in ([], ["O"], ["A"], ["D"], ["A", "Sa"], ["D", "Sv", "P"]):
+        for d in ("nosdp", full):
+            yield Case(cmd_line([cmd_req(x, i + 1) for i, x in enumerate(pre)] + [cmd_req("I", 9), cmd_req("O", 10), interleaved(1, rtcp_sr(7, 1, 2, 3, 4, 5)), cmd_req("T", 11)], desc=d), cls="cmd-interleaved")
+    pub = b"".join(cmd_req(x, i + 1) for i, x in enumerate(["O", "A", "Sv", "Sa", "R", "I", "T"]))
+    sub = b"".join(cmd_req(x, i + 1) for i, x in enumerate(["O", "D", "Sv", "Sa", "P", "G", "T"]))
+    for whole, d in ((pub, "nosdp"), (sub, full)):
+        for cut in range(0, len(whole) + 1, 5 if quick else 1):
+            yield Case(cmd_line(whole[:cut], desc=d), cls="cmd-trunc")
+    # --- random longer sequences: any command, any transport form, any uri of the class, any observer
+    syms = ["O", "A", "D", "Sa", "Sv", "Su", "R", "P", "T", "G", "I"]
+    for _ in range(400 if quick else 60000):
+        stream = []
+        base = rng.choice(CMD_URIS_OK) if rng.random() < 0.3 else CMD_BASE
+        sdp = rng.choice(sdps) if rng.random() < 0.3 else CMD_SDP
+        for i in range(rng.randrange(3, 13)):
+            sym = rng.choice(syms if rng.random() < 0.8 else ["O", "G", "I"])
+            if sym in ("Sa", "Sv", "Su") and rng.random() < 0.4:
+                stream.append(rq(b"SETUP", rng.choice(uris) if rng.random() < 0.5 else base + rng.choice([b"/streamid=0", b"/streamid=1", b"/trackID=7"]), i + 1, [(b"Transport", rng.choice(TRANSPORTS))]))
+            elif sym in ("A", "D") and rng.random() < 0.15:
+                stream.append(rq(b"ANNOUNCE" if sym == "A" else b"DESCRIBE", rng.choice(CMD_URIS_BAD), i + 1, [], sdp if sym == "A" else b""))
+            else:
+                stream.append(cmd_req(sym, i + 1, base=base, sdp=sdp))
+        ws = int(rng.random() < 0.2 and not any(x[:1] == b"$" for x in stream))
+        d = rng.choice(descs + [hex_tok(rng.choice(sdps))])
+        yield Case(cmd_line(stream, ws=ws, desc=d, pubok=rng.choice([1, 1, 1, 0]), playok=rng.choice([1, 1, 1, 0]), mask=rb(rng, 4) if ws else None), cls="cmd-random")
+
+
 def text_mutate(rng, b, seps):
     b = bytearray(b)
     k = rng.randrange(6)
@@ -1329,7 +1486,7 @@ def gen_sessions(tier, rng):
 
 
 def gen_cases(tier, rng):
-    for g in (gen_rtp, gen_rtcp, gen_insess, gen_udpsess, gen_msg, gen_ilv, gen_ws, gen_ps, gen_rtmpc, gen_text, gen_sessions):
+    for g in (gen_rtp, gen_rtcp, gen_insess, gen_udpsess, gen_msg, gen_cmd, gen_ilv, gen_ws, gen_ps, gen_rtmpc, gen_text, gen_sessions):
         for c in g(tier, rng):
             yield c
 
@@ -1374,6 +1531,11 @@ def nontrivial(c, out):
         o = out.split(" ")
         evs = o[1] if len(o) > 1 else ""
         return "%s|%s|%s|k%d|e%d|av%d" % (c.cls, f[1], outcome_class(out), min(evs.count("k"), 6), min(evs.count("e"), 4), min(evs.count("av:"), 6))
+    if f[0] == "c13.rtspcmd":
+        o = out.split(" ")
+        evs = o[1].split(";") if len(o) > 2 and o[1] != "-" else []
+        shape = ",".join(e if e.startswith("cb:") else e.split(":")[2][:12] for e in evs[:8])
+        return "%s|%s|%s|%s|%s|%s" % (c.cls, "".join(f[1:3]) + f[4] + ("s" if len(f[3]) > 6 else f[3][:2]), outcome_class(out), shape, len(evs), o[-2].split(":")[0] if len(o) > 3 else "")
     if f[0] in ("c13x.udpsess", "c13x.pulludp"):
         return "%s|%s/%s|%s|%d" % (f[0], f[1], f[4], outcome_class(out), min(f[7].count(","), 8))
     n = tok_len(f[-1]) if len(f[-1]) < 4000 else 9999
@@ -1392,6 +1554,10 @@ def oracle(c, out):
             return (out == "err", "malformed RTP packet must be refused with an error, got: " + out[:80])
         o = out.split(" ")
         return (o[0] == "ok" and tok_bytes(o[-1]) == want, "well-formed RTP packet: payload differs from the RFC 3550 reference")
+    if f[0] == "c13.rtspcmd":
+        # closing that session only: nothing the requests made lal open may outlive the session
+        leak = out.rsplit("leak:", 1)
+        return (len(leak) == 2 and leak[1] == "0", "the command sequence leaves UDP sockets open after its session is gone: " + out[-60:])
     if f[0].startswith("c13x."):
         return (out == "alive", "unmodelled surface must survive: " + out[:80])
     return (True, "")
@@ -1416,6 +1582,20 @@ def neighbors(c, rng):
                 yield "c13.ps %s %s" % (f[1], ",".join(items[:k] + [hex_tok(b[:t])]))
             for _ in range(10):
                 yield "c13.ps %s %s" % (f[1], ",".join(items[:k] + [hex_tok(mutate(rng, b, 12))] + items[k + 1:]))
+        return
+    if f[0] == "c13.rtspcmd":
+        if f[1] != "0":
+            return
+        import re
+        b = tok_bytes(f[5])
+        starts = [m.start() for m in re.finditer(rb"(OPTIONS|ANNOUNCE|DESCRIBE|SETUP|RECORD|PLAY|TEARDOWN|GET_PARAMETER) rtsp://", b)] + [len(b)]
+        if starts[0] != 0:
+            starts = [0] + starts
+        for i in range(len(starts) - 1):
+            yield " ".join(f[:5]) + " " + hex_tok(b[:starts[i]])
+            yield " ".join(f[:5]) + " " + hex_tok(b[:starts[i]] + b[starts[i + 1]:])
+        for d in ("nosdp", "deny", hex_tok(CMD_SDP)):
+            yield " ".join(f[:3]) + " " + d + " " + " ".join(f[4:])
         return
     if f[0] in ("c13.udpsess", "c13x.udpsess", "c13x.pulludp"):
         if f[7] == "-":
